@@ -124,6 +124,32 @@ theorem keep_all_on_the_tree (c : Conv) (hc : ∀ x, c.unwrap (c.wrap x) = x) (k
     ∃ j', J.updateAt (jKeep (xs.map fun x => keep (c.wrap x))) j loc = some j' ∧ DocInv h' root j' :=
   lKeepAll_refines c hc keep h h' id xs root j loc hi hw ho hop
 
+/-- `view[i] = v` on the tree (index in range, fresh value) -/
+theorem assign_item_on_the_tree (c : Conv) (h h' : Heap) (id : Nat) (i : Int) (v : Val) (root : Val) (j jv : J)
+    (loc : List Name) (hi : DocInv h root j) (hw : walk (hview h) root loc = some (.ref id))
+    (hv : UnfJ h jv (c.unwrap v)) (hvn : (fpJ h jv (c.unwrap v)).Nodup)
+    (hfresh : ∀ x ∈ fpJ h jv (c.unwrap v), x ∉ fpJ h j root)
+    (hop : lSet c h id i v = some h') :
+    ∃ j', J.updateAt (jSetIdx i jv) j loc = some j' ∧ DocInv h' root j' :=
+  lSet_refines c h h' id i v root j jv loc hi hw hv hvn hfresh hop
+
+/-- `view.pop(i)` on the tree: what `del view[i]` does to the document, handing back what
+`view[i]` read -/
+theorem pop_item_on_the_tree (c : Conv) (h h' : Heap) (id : Nat) (i : Int) (r : Val) (root : Val) (j : J)
+    (loc : List Name) (hi : DocInv h root j) (hw : walk (hview h) root loc = some (.ref id))
+    (hop : lPop c h id i = some (h', r)) :
+    lDel h id i = some h' ∧ lGet c h id i = some r ∧
+      ∃ j', J.updateAt (jDelIdx i) j loc = some j' ∧ DocInv h' root j' :=
+  lPop_refines c h h' id i r root j loc hi hw hop
+
+/-- `remove_all` on the tree -/
+theorem remove_all_on_the_tree (c : Conv) (hc : ∀ x, c.unwrap (c.wrap x) = x) (rm : Val → Bool) (h h' : Heap) (id : Nat)
+    (xs : List Val) (root : Val) (j : J) (loc : List Name)
+    (hi : DocInv h root j) (hw : walk (hview h) root loc = some (.ref id)) (ho : h[id]? = some (.list xs))
+    (hop : lRemoveAll c rm h id = some h') :
+    ∃ j', J.updateAt (jKeep (xs.map fun x => !rm (c.wrap x))) j loc = some j' ∧ DocInv h' root j' :=
+  lRemoveAll_refines c hc rm h h' id xs root j loc hi hw ho hop
+
 /-- with a predicate that remembers what it has been asked: still one question per element,
 front to back (the in-place loop = the plain-list comprehension, state included) -/
 theorem keep_all_with_memory {σ : Type} (f : σ → Val → σ × Option Val) (s : σ) (xs : List Val) :
